@@ -227,7 +227,13 @@ func (env *verifEnv) c04Consumers() []*c04Consumer {
 		req.Header.Set("Cookie", authCookieName+"="+raw)
 		rr := httptest.NewRecorder()
 		o := begin()
-		_, err := st.updateAuthCookieAuthlevel(rr, req, AuthTypePassword|AuthTypeU2F)
+		// the upgrade is asked for the user the presented cookie names (since fix 52b9393 the
+		// function also takes the authenticated user and refuses a cookie issued to somebody else)
+		sub := ""
+		if _, claims, ok := tokParse(raw); ok {
+			sub, _ = claims["sub"].(string)
+		}
+		_, err := st.updateAuthCookieAuthlevel(rr, req, sub, AuthTypePassword|AuthTypeU2F)
 		end(&o)
 		o.ok = err == nil
 		o.status = rr.Code
